@@ -6,7 +6,7 @@
    breaks gen_Point_SetLon_eq / gen_Point_SetLat_eq / gen_GeoCrs_eq / gen_OrthCrs_eq and with them every theorem of this file. *)
 From Coq Require Import ZArith Floats Bool List.
 From SIDGen Require Generated GeneratedF.
-From SID Require Import Base F64 GenEqConst GenEqFPoint Project.
+From SID Require Import Base F64 GenEqConstCrs GenEqFPoint Project.
 Import ListNotations.
 
 (* object.NewPoint over the generated setters: SetLon, SetLat, SetAlt on a zero Point, stopping at the first error
